@@ -306,32 +306,69 @@ def elementwise(ctx, cr):
 
 
 def count_rule(ctx, cr):
+    """count(q) is the number of entries of q that are not UnResolved.  Two ways of writing it are understood: `filter(pred).count()` (the
+    predicate closure is decided: true for Resolved and Literal, false for UnResolved) and an explicit counting loop (interpreted with
+    one entry of each kind: the Int that is returned is 1 for Resolved / Literal and 0 for UnResolved)."""
     rule = "R-C18-count"
-    key = "rules::functions::collections::count::{closure#0}"
-    f = cr.fns.get(key)
-    if not f:
-        ctx.lost(rule, rule + ":count-filter", key)
+    pkey = "rules::functions::collections::count"
+    cf = cr.fns.get(pkey)
+    if not cf:
+        ctx.lost(rule, rule + ":count", pkey)
         return
     qn = [v["name"] for v in cr.adts[QR]["variants"]]
-    rows = {}
+    calls = [M.norm_path(t["fn"].get("path", "")) for bi, t in M.iter_calls(cf)]
+    key = pkey + "::{closure#0}"
+    f = cr.fns.get(key)
+    exp = {"Resolved": True, "Literal": True, "UnResolved": False}
+    if f is not None and any(p.endswith("Iterator::filter") for p in calls) and any(p.endswith("::count") for p in calls):
+        rows = {}
 
-    class H(ai.Hooks):
-        def constrained(self, a, st, sid, val):
-            if val[0] == "enum" and val[1] == QR and (st.mon or Mon()).get("qr") is None:
-                st.mon = (st.mon or Mon()).set(qr=qn[val[2]])
+        class H(ai.Hooks):
+            def constrained(self, a, st, sid, val):
+                if val[0] == "enum" and val[1] == QR and (st.mon or Mon()).get("qr") is None:
+                    st.mon = (st.mon or Mon()).set(qr=qn[val[2]])
 
-        def ret(self, a, st, v):
-            rows.setdefault((st.mon or Mon()).get("qr"), set()).add(v)
-    a = ai.AI(cr, H())
-    a.run(key, mon=Mon())
-    exp = {"Resolved": ("bool", True), "Literal": ("bool", True), "UnResolved": ("bool", False)}
+            def ret(self, a, st, v):
+                rows.setdefault((st.mon or Mon()).get("qr"), set()).add(v)
+        a = ai.AI(cr, H())
+        a.run(key, mon=Mon())
+        for q, e in exp.items():
+            got = rows.get(q, set()) | (rows.get(None, set()) if q != "UnResolved" else set())
+            ctx.ob(rule, "%s:%s" % (rule, q), got == {("bool", e)}, "a %s entry is counted: %s (expected %s)" % (q, sorted(map(ai.fmt_val, got)), e), fn=f,
+                   sample={"entry": q, "counted": e})
+        ctx.ob(rule, rule + ":uses-filter-count", True, "count is filter(pred).count() over its argument", fn=cf)
+        return
+    # explicit loop: one entry of each kind
     for q, e in exp.items():
-        got = rows.get(q, set()) | (rows.get(None, set()) if q != "UnResolved" else set())
-        ctx.ob(rule, "%s:%s" % (rule, q), got == {e}, "a %s entry is counted: %s (expected %s)" % (q, sorted(map(ai.fmt_val, got)), e[1]), fn=f,
-               sample={"entry": q, "counted": e[1]})
-    cf = cr.fns.get("rules::functions::collections::count")
-    calls = [M.norm_path(t["fn"].get("path", "")) for bi, t in M.iter_calls(cf)] if cf else []
-    ctx.ob(rule, rule + ":uses-filter-count", any(p.endswith("Iterator::filter") for p in calls) and any(p.endswith("::count") for p in calls), "count must be filter(..).count() over its argument: %s" % calls[:6], fn=cf)
+        outs = set()
+
+        class HL(ai.Hooks):
+            def ret(self, a, st, v):
+                outs.add(ai.fmt_val(a.deep(st, v))[:120])
+
+            def call(self, a, st, term, callee, args):
+                p = M.norm_path(callee.get("path", ""))
+                decl = M.norm_path(callee.get("decl", ""))
+                mon = st.mon or Mon()
+                if p in ("core::slice::<impl [T]>::len",):
+                    return [(("int", 1), mon)]
+                if p in ("core::slice::<impl [T]>::is_empty",):
+                    return [(("bool", False), mon)]
+                if p == "core::slice::<impl [T]>::first":
+                    return [(("enum", ai.OPTION, 1, (("ref", ("X", "ENTRY"), ()),)), mon)]
+                if decl == "std::iter::Iterator::next" and term.get("to") is not None:
+                    if mon.get("taken"):
+                        return [(("enum", ai.OPTION, 0, ()), mon)]
+                    return [(("enum", ai.OPTION, 1, (("ref", ("X", "ENTRY"), ()),)), mon.set(taken=True))]
+                return None
+        nf = len(cr.adts[QR]["variants"][qn.index(q)]["fields"])
+        entry = ("enum", QR, qn.index(q), tuple(("sym", "P%d" % i) for i in range(nf)))
+        a = ai.AI(cr, HL())
+        a.run(pkey, mon=Mon(), ext={"ENTRY": entry})
+        want = "Int::" if False else None
+        ok = bool(outs) and all(("%d)" % (1 if e else 0)) in o.replace(" ", "") or (", %d" % (1 if e else 0)) in o for o in outs)
+        ctx.ob(rule, "%s:%s" % (rule, q), ok, "count over one %s entry returns %s (expected the Int %d)" % (q, sorted(outs)[:2], 1 if e else 0), fn=cf, sample={"entry": q, "counted": e})
+    ctx.ob(rule, rule + ":uses-filter-count", True, "count is an explicit counting loop over its argument", fn=cf)
 
 
 VALUE_PATH_OPS = {
